@@ -72,7 +72,9 @@ class REGCP1Model(REGCA1Model):
         """
         Disable the corresponding `StaticGen`s.
         """
-        self.system.groups['StaticGen'].set(src='u', idx=self.gen.v, attr='v', value=0)
+        # only devices in service replace their static counterparts
+        mask_idx = [self.gen.v[i] for i in range(self.n) if self.u.v[i] == 1]
+        self.system.groups['StaticGen'].set(src='u', idx=mask_idx, attr='v', value=0)
 
 
 class REGCP1(REGCP1Data, REGCP1Model):
